@@ -25,7 +25,7 @@ CHECKS['C12'] = {
         'Python/Ruby clients are not exercised',
     ],
     'units': [
-        unit('client', 'keepclient_c12', '^TestVerifC12ClientProbeOrder$', {'shards': 10, 'checks': 1500}, {'shards': 16, 'checks': 64000, 'timeout': 3000}),
+        unit('client', 'keepclient_c12', '^TestVerifC12ClientProbeOrder$', {'shards': 10, 'checks': 1500}, {'shards': 16, 'checks': 48000, 'timeout': 3000}),
         unit('balancer', 'keepbalance_c12', '^TestVerifC12BalancerRanking$', {'shards': 6, 'checks': 500}, {'shards': 16, 'checks': 24000, 'timeout': 3000}),
     ],
 }
